@@ -10,9 +10,9 @@ namespace Cnfgen.Cli.AP
 open Cnfgen.Gen Cnfgen.Cli
 
 /-- `K` is kept by the actions -/
-structure EngInv (bind : Bind) (G : OptSpec → Prop) (K : List OptSpec → Ns → Prop) : Prop where
-  opt : ∀ o toks b ps ns, G o → bind o toks = .ok b → K ps ns → K ps (b ++ ns)
-  pos : ∀ o toks b ps ns, G o → bind o toks = .ok b → K (o :: ps) ns → K ps (b ++ ns)
+structure EngInv (bind : Bind) (Go Gp : OptSpec → Prop) (K : List OptSpec → Ns → Prop) : Prop where
+  opt : ∀ o toks b ps ns, Go o → bind o toks = .ok b → K ps ns → K ps (b ++ ns)
+  pos : ∀ o toks b ps ns, Gp o → bind o toks = .ok b → K (o :: ps) ns → K ps (b ++ ns)
 
 /-! ### an optional never touches the list of positionals -/
 
@@ -68,7 +68,7 @@ theorem stepOpt_keep (bind : Bind) (strs : List (String × Target)) (oi : OptIte
             · rw [takeAction_keep bind _ _ st1 st2 hl, e1]
 
 section inv
-variable {bind : Bind} {G : OptSpec → Prop} {K : List OptSpec → Ns → Prop} (hK : EngInv bind G K)
+variable {bind : Bind} {Go Gp : OptSpec → Prop} {K : List OptSpec → Ns → Prop} (hK : EngInv bind Go Gp K)
 include hK
 
 theorem takeAction_ns (o : OptSpec) (toks : List String) (st st' : PState)
@@ -83,7 +83,7 @@ theorem takeAction_ns (o : OptSpec) (toks : List String) (st st' : PState)
       exact ⟨b, hb, rfl, rfl⟩
 
 theorem applyPosX_inv : ∀ (l : List OptSpec) (sls : List (List String)) (i : Nat) (ddg : Option Nat)
-    (st st' : PState) (tail : List OptSpec), (∀ o ∈ l, G o) → K (l ++ tail) st.ns →
+    (st st' : PState) (tail : List OptSpec), (∀ o ∈ l, Gp o) → K (l ++ tail) st.ns →
     applyPosX bind l sls i ddg st = .ok st' → K (l.drop sls.length ++ tail) st'.ns := by
   intro l
   induction l with
@@ -114,7 +114,7 @@ theorem slices_length : ∀ (cs : List Nat) (toks : List String), (slices cs tok
   | nil => intro toks; rfl
   | cons c cs ih => intro toks; simp [slices, ih]
 
-theorem consumePosX_inv (run : Run) (final : Bool) (st st' : PState) (hg : ∀ o ∈ st.ps, G o)
+theorem consumePosX_inv (run : Run) (final : Bool) (st st' : PState) (hg : ∀ o ∈ st.ps, Gp o)
     (hk : K st.ps st.ns) (h : consumePosX bind run final st = .ok st') : K st'.ps st'.ns := by
   unfold consumePosX at h
   split at h
@@ -127,7 +127,7 @@ theorem consumePosX_inv (run : Run) (final : Bool) (st st' : PState) (hg : ∀ o
       rw [slices_length hK] at this
       simpa using this
 
-theorem runFlags_inv : ∀ (l : List Target) (st st' : PState), (∀ o, Target.opt o ∈ l → G o) →
+theorem runFlags_inv : ∀ (l : List Target) (st st' : PState), (∀ o, Target.opt o ∈ l → Go o) →
     K st.ps st.ns → runFlags bind l st = .ok st' → K st'.ps st'.ns := by
   intro l
   induction l with
@@ -149,9 +149,9 @@ theorem runFlags_inv : ∀ (l : List Target) (st st' : PState), (∀ o, Target.o
 end inv
 
 section loop
-variable {bind : Bind} {G : OptSpec → Prop} {K : List OptSpec → Ns → Prop} (hK : EngInv bind G K)
+variable {bind : Bind} {Go Gp : OptSpec → Prop} {K : List OptSpec → Ns → Prop} (hK : EngInv bind Go Gp K)
 variable (strs : List (String × Target)) (ha : ∀ tg, TgIn strs tg → OptArity tg)
-variable (hg : ∀ o, TgIn strs (.opt o) → G o)
+variable (hg : ∀ o, TgIn strs (.opt o) → Go o)
 include hK ha hg
 
 theorem consumeOptX_inv (tg : Target) (htg : TgIn strs tg) (os : String) (ex : Option String) (run run' : Run)
@@ -197,7 +197,7 @@ theorem consumeOptX_inv (tg : Target) (htg : TgIn strs tg) (os : String) (ex : O
             exact hK.opt o _ b st1.ps st1.ns (hg o hchain.2) hb hk1
 
 theorem runSegs_inv : ∀ (ss : List (OptItem × Run)) (st st' : PState),
-    (∀ tg os ex run, (OptItem.known tg os ex, run) ∈ ss → TgIn strs tg) → (∀ o ∈ st.ps, G o) →
+    (∀ tg os ex run, (OptItem.known tg os ex, run) ∈ ss → TgIn strs tg) → (∀ o ∈ st.ps, Gp o) →
     K st.ps st.ns → runSegs bind strs ss st = .ok st' → K st'.ps st'.ns := by
   intro ss
   induction ss with
@@ -220,9 +220,9 @@ theorem runSegs_inv : ∀ (ss : List (OptItem × Run)) (st st' : PState),
       split at h
       · simp at h
       · rename_i st2 hc
-        have hps1 : ∀ o ∈ st1.ps, G o := by rw [hps1e]; exact hps
+        have hps1 : ∀ o ∈ st1.ps, Gp o := by rw [hps1e]; exact hps
         have hk2 := consumePosX_inv hK run1 rest.isEmpty st1 st2 hps1 hk1 hc
-        have hps2 : ∀ o ∈ st2.ps, G o := by
+        have hps2 : ∀ o ∈ st2.ps, Gp o := by
           unfold consumePosX at hc
           split at hc
           · simp at hc; subst hc; exact hps1
@@ -236,9 +236,10 @@ theorem runSegs_inv : ∀ (ss : List (OptItem × Run)) (st st' : PState),
 end loop
 
 /-- THE INVARIANT PRINCIPLE -/
-theorem engine_inv {bind : Bind} {G : OptSpec → Prop} {K : List OptSpec → Ns → Prop} (hK : EngInv bind G K)
+theorem engine_inv {bind : Bind} {Go Gp : OptSpec → Prop} {K : List OptSpec → Ns → Prop}
+    (hK : EngInv bind Go Gp K)
     (p : PSpec) (ha : ∀ o ∈ p.opts, o.arity = .zero ∨ o.arity = .one ∨ o.arity = .plus)
-    (hg : ∀ o ∈ p.opts ++ p.poss, G o) (argv : List String) (ns : Ns) (h0 : K p.poss [])
+    (hgo : ∀ o ∈ p.opts, Go o) (hgp : ∀ o ∈ p.poss, Gp o) (argv : List String) (ns : Ns) (h0 : K p.poss [])
     (h : engine bind p argv = .ok ns) : K [] ns := by
   have hin : ∀ o, TgIn p.strings (.opt o) → o ∈ p.opts := by
     intro o ⟨y, hy, hyo⟩
@@ -255,7 +256,7 @@ theorem engine_inv {bind : Bind} {G : OptSpec → Prop} {K : List OptSpec → Ns
     cases tg with
     | help => exact Or.inl rfl
     | opt o => exact ha o (hin o htg)
-  have hg' : ∀ o, TgIn p.strings (.opt o) → G o := fun o h => hg o (by simp [hin o h])
+  have hg' : ∀ o, TgIn p.strings (.opt o) → Go o := fun o h => hgo o (hin o h)
   unfold engine engineItems at h
   split at h
   · simp at h
@@ -266,9 +267,9 @@ theorem engine_inv {bind : Bind} {G : OptSpec → Prop} {K : List OptSpec → Ns
           TgIn p.strings tg := by
         intro tg os ex run h
         exact itemize_TgIn p.strings argv tg os ex (segs_known (itemize p.strings argv) tg os ex run h)
-      have hps0 : ∀ o ∈ p.poss, G o := fun o ho => hg o (by simp [ho])
+      have hps0 : ∀ o ∈ p.poss, Gp o := hgp
       have hk0 := consumePosX_inv hK _ _ ⟨p.poss, [], false, []⟩ st0 hps0 h0 h0'
-      have hps0' : ∀ o ∈ st0.ps, G o := by
+      have hps0' : ∀ o ∈ st0.ps, Gp o := by
         unfold consumePosX at h0'
         split at h0'
         · simp at h0'; subst h0'; exact hps0
